@@ -714,10 +714,10 @@ def enumerate_cases(tier):
     cases = []
     base2 = [('LEGENDRE', 'RADAU-RIGHT', 3), ('LEGENDRE', 'RADAU-RIGHT', 2)]
     base3 = [('LEGENDRE', 'RADAU-RIGHT', 3), ('LEGENDRE', 'RADAU-RIGHT', 2), ('LEGENDRE', 'RADAU-RIGHT', 2)]
-    # (a) node sets x finter on the periodic heat equation (plus Dahlquist for the thorough tier)
+    # (a) node sets x finter on the periodic heat equation
     for ns in node_sets(tier):
         for fi in (False, True):
-            cases.append(('nodes', make_cfg('heat_per', ns, fi, sizes=[8, 4, 2][: len(ns)] if tier == 'thorough' else None)))
+            cases.append(('nodes', make_cfg('heat_per', ns, fi, sizes=[8, 4] if (tier == 'thorough' and len(ns) == 2) else None)))
     # (b) space transfer variants (smallest nested grids on which both orders are valid Lagrange stencils)
     orders = (2, 4, 6, 8)
 
@@ -797,7 +797,6 @@ def run(rep, tier):
         'allencahn_front_semiimplicit is left out: its solve_system does not invert I - factor*f_impl (boundary unknowns of the extended system are not pinned; residual 0.4 of the solver contract, reported for C12), so no IMEX sweep on it has the collocation solution as fixed point, with or without coarse levels',
     ]
     cases = enumerate_cases(tier)
-    # LU in the matrix clause: only where the unpivoted factorisation is what the pivoted one gives
     common.rng('c10-order').shuffle(cases)
     cases.sort(key=lambda gc: -cost(gc[1]))  # long cases first (scheduling only)
     budget = common.Budget(80 if tier == 'quick' else 17 * 60)
